@@ -169,6 +169,12 @@ def gen_case(rng):
     opts = {"iterate_rules": rng.random() < (0.3 if selffeed else 0.8 if chain else 0.5)}
     r = rng.random()
     rule_shapes = [s for s in shapes if s["id"] in rules]
+    if len(rule_shapes) >= 2 and rng.random() < 0.3:
+        # one rule node that is the sh:rule of two shapes (with their own targets): it fires for the focus nodes of each of them
+        a_, b_ = rng.sample(rule_shapes, 2)
+        shared = rng.choice(rules[a_["id"]])
+        if all(x["order"] != shared["order"] for x in rules[b_["id"]]):
+            rules[b_["id"]].append(shared)
     if r < 0.12:
         opts["focus_nodes"] = [str(x) for x in rng.sample(iri_nodes, rng.randint(1, min(2, len(iri_nodes))))]
     elif r < 0.2:
@@ -177,11 +183,15 @@ def gen_case(rng):
         opts["use_shapes"] = [str(rng.choice(rule_shapes)["id"])]
         opts["focus_nodes"] = [str(x) for x in rng.sample(iri_nodes, rng.randint(1, min(2, len(iri_nodes))))]
     sg = S.shapes_to_rdf(shapes)
+    written = set()
     for s in rule_shapes:
         sg.add((s["id"], SH.order, Literal(s["order"])))
         for r_ in rules[s["id"]]:
             n = r_["node"]
             sg.add((s["id"], SH.rule, n))
+            if n in written:
+                continue      # a rule node shared by two shapes is described once
+            written.add(n)
             sg.add((n, SH.order, Literal(r_["order"])))
             if r_["deact"]:
                 sg.add((n, SH.deactivated, Literal(True)))
